@@ -120,7 +120,7 @@ func hostileSweep() []func(c *Cfg) string {
 	}
 	for _, v := range hostileDates {
 		v := v
-		add("from-alone", func(c *Cfg) { c.Validity = Validity{From: v} })              // the default lifetime is added to it
+		add("from-alone", func(c *Cfg) { c.Validity = Validity{From: v} })                    // the default lifetime is added to it
 		add("from-plus-day", func(c *Cfg) { c.Validity = Validity{From: v, Duration: "1d"} }) // may cross the year 9999
 	}
 	add("duration-to-year-10000", func(c *Cfg) { c.Validity = Validity{From: "2024-01-01", Duration: "9999y"} })
@@ -175,7 +175,9 @@ func hostileSweep() []func(c *Cfg) string {
 		add("serial-text", func(c *Cfg) { c.SerialBig = v })
 	}
 	// general names without a "type" key (the schema requires neither key), alone and between well-formed entries
-	add("san-typeless", func(c *Cfg) { c.Exts = []Ext{{Kind: "san", HasContent: true, Crit: -1, Names: [][2]string{{"-", "other.example.org"}}}} })
+	add("san-typeless", func(c *Cfg) {
+		c.Exts = []Ext{{Kind: "san", HasContent: true, Crit: -1, Names: [][2]string{{"-", "other.example.org"}}}}
+	})
 	add("san-typeless-second", func(c *Cfg) {
 		c.Exts = []Ext{{Kind: "san", HasContent: true, Crit: -1, Names: [][2]string{{"dns", "a.example"}, {"-", "b.example"}, {"mail", "c@d.example"}}}}
 	})
